@@ -1155,6 +1155,33 @@ pub fn gen(tier: &str, rng: &mut Rng, emit: &mut dyn FnMut(String)) {
         emit(l);
     }
 
+    // ---- what the flags DO: a country / a zone inferred from the coordinates shows only through
+    // evaluation — a holiday rule on a public holiday of the place (hard-coded dates, not looked up
+    // through the code under test), a local-time rule asked at an instant given in UTC; every value
+    // of each flag (omitted = default, None, True, False), with and without an explicit country / zone
+    let places = [
+        (coords_tok(48.8535, 2.34839), "FR", "Europe/Paris", ev::ymd(2024, 7, 14)),
+        (coords_tok(40.7128, -74.006), "US", "America/New_York", ev::ymd(2024, 7, 4)),
+        (coords_tok(35.6762, 139.6503), "JP", "Asia/Tokyo", ev::ymd(2024, 1, 1)),
+    ];
+    for (co, cc, zone, hol) in places.iter() {
+        for ac in ["d", "-", "1", "0"] {
+            for at in ["d", "-", "1", "0"] {
+                for country in ["-".to_string(), format!("={cc}"), "=ZW".to_string()] {
+                    for tz in ["-".to_string(), format!("Z:{zone}"), "Z:UTC".to_string()] {
+                        if (ac != "d" && at != "d" && ac != at) && !thorough {
+                            continue;
+                        }
+                        let noon = inst(*hol, ns_of(12, 0, 0, 0));
+                        emit(format!("py.state {} {tz} {country} {co} {ac} {at} N:{noon}", enc("24/7; PH off")));
+                        emit(format!("py.next {} {tz} {country} {co} {ac} {at} A:UTC:0:{noon}", enc("PH 10:00-12:00; 08:00-09:00")));
+                        emit(format!("py.state {} {tz} {country} - {ac} {at} N:{noon}", enc("24/7; PH off")));
+                    }
+                }
+            }
+        }
+    }
+
     emit("py.enum".to_string());
 
     // ---- the constructor's decision table ----------------------------------------------------
